@@ -88,7 +88,9 @@ def one(ctx, data, meta=None, htmls=(False, True)):
             def from_table(rec):
                 if rec is None: return False
                 if rec.get('elem') is not None and tuple(rec['elem']) in info: return info[tuple(rec['elem'])].in_tbl
-                if rec.get('copy', False): return True     # copies exist only inside tables
+                if rec.get('copy', False):
+                    if rec['lin'][1:2] == ['']: return None        # synthetic padding paragraph of a merged cell: no source paragraph to ask
+                    return True     # copies exist only inside tables
                 return None                         # anonymous paragraph (e.g. a block-level equation): no source paragraph to ask
             for ti, t in enumerate(pars):
                 def firstpar(x):
